@@ -69,7 +69,7 @@ Proof. intros <-. unfold locked. rewrite N.eqb_refl. apply Bool.andb_false_r. Qe
 (* an exclusive consumer excludes all others, and nobody becomes an exclusive consumer of a queue that has one *)
 Theorem exclusive_consumer_excludes cfg fx s c h q tag noack excl nowait ch qu :
   get_chan s c h = Some ch -> queue_found s q = Some qu -> (fx_excl_owner fx && locked qu c) = false ->
-  find_consumer ch tag = None ->
+  find_consumer ch (eff_tag s tag) = None ->
   q_consumers qu <> [] -> (q_cexcl qu = true \/ excl = true) ->
   handle_method cfg fx s c h (MConsume q tag noack excl nowait) =
   (set_queue s q (qu <| q_wasconsumed := true |>), [], Some (ChanErr AccessRefused 60 20)).
@@ -140,7 +140,7 @@ Proof.
     destruct (vhost_delete_queue _ s q ifunused ifempty) as [[s1 e1] r1]. cbn [fst] in Hd. destruct r1; exact Hd.
   - (* consume *)
     inversion Ht; subst. destruct (queue_found s q) as [qu|]; auto. destruct (_ && _); auto.
-    destruct (find_consumer ch tag); auto. destruct (_ && _); cbn [fst]; r_other E; reflexivity.
+    destruct (find_consumer ch _); auto. destruct (_ && _); cbn [fst]; r_other E; reflexivity.
   - (* get *)
     inversion Ht; subst. destruct (queue_found s q) as [qu|]; auto. destruct (_ && _); auto.
     destruct (q_ready qu) as [|u rest]; auto.
